@@ -384,7 +384,13 @@ class ConcRun:
         kinds = (plan["A"]["kind"], plan["B"]["kind"])
         oracle = "%s.overlapping-requests-not-equivalent-to-sequential" % self.prop
         lost_race_500 = any(res[k][0] == 500 and plan[k]["kind"] in ("put", "delete") for k in "AB")
-        self.violations.append({"prop": self.prop, "oracle": oracle, "sig": {"oracle": oracle, "kinds": "%s+%s" % tuple(sorted(kinds)), "mode": self.cfg["mode"], "write_answered_500": lost_race_500}, "step": None, "variant": rec,
+        pre_names = {m["name"] for m in plan["pre"]}
+        # does one of the two change or delete an *existing* member?  Those go to the store in a worker
+        # thread, where the store checks the etag before it takes the lock (recorded finding, C05);
+        # creating PUTs run on the event loop and have no such window.
+        touches_existing = any(plan[k]["kind"] in ("put", "delete") and plan[k].get("name") in pre_names for k in "AB")
+        self.violations.append({"prop": self.prop, "oracle": oracle, "sig": {"oracle": oracle, "kinds": "%s+%s" % tuple(sorted(kinds)), "mode": self.cfg["mode"], "write_answered_500": lost_race_500,
+                                                                               "touches_existing_member": touches_existing}, "step": None, "variant": rec,
                                 "detail": ("A=%s B=%s first=%s ticks=%s split_body=%s: statuses A=%s B=%s; %s" % (
                                     {k: v for k, v in plan["A"].items() if k != "body"}, {k: v for k, v in plan["B"].items() if k != "body"}, var["first"], var["ticks"], var["split_body"],
                                     res["A"][0], res["B"][0], " | ".join(parts)))[:900]})
